@@ -533,8 +533,8 @@ def check_C10(tier, seed, replay=None):
 
 def check_C07(tier, seed, replay=None):
     return ref_family_check("C07", tier, seed,
-                            [("instants", "nostartend", 1500), ("instants", "range", 400), ("instants", "epoch:nostartend", 300)],
-                            [("instants", "nostartend", 30000), ("instants", "range", 8000), ("instants", "agg", 8000), ("instants", "epoch:nostartend", 8000)],
+                            [("instants", "nostartend", 1500), ("instants", "range", 400), ("instants", "epoch:nostartend", 300), ("instants", "func", 800), ("instants", "hist", 400)],
+                            [("instants", "nostartend", 30000), ("instants", "range", 8000), ("instants", "agg", 8000), ("instants", "epoch:nostartend", 8000), ("instants", "func", 10000), ("instants", "hist", 6000)],
                             corr=corr_core("C07", ("sel", "bin", "tree")))
 
 
